@@ -40,6 +40,7 @@ void vp_tags_init (void) {
 #define V_RD_BARGE   0x2000u  /* C14 L2 (reader) */
 #define V_LONG_L1    0x4000u  /* C14 L1 */
 #define V_ALLFALSE_W 0x10000u /* C06 */
+#define V_H4         0x20000u /* C02 H4 */
 #define V_QUEUED     0x8000u  /* C03: acquisition by a queued waiter that has not observed its wake-up with acquire order */
 
 /* Decide which typed transition (old -> new) is for a thread with ghost *g,
@@ -135,6 +136,12 @@ unsigned vp_mu_step (uint32_t old, uint32_t new_, struct vp_mu_ghost *g, int ord
 		if (g->queued && !acq_spin) viol |= V_QUEUED;
 		g->waited = 0;   /* no longer a waiter */
 	}
+	/* C02 H1: the thread that set MU_DESIG_WAKER either clears it again when it releases the spinlock, or wakes a waiter (checked
+	   as a postcondition of nsync_mu_unlock_slow_ from this ghost) */
+	if (rel_spin && g->set_desig) { g->released_with_desig = (new_ & MU_DESIG_WAKER) != 0; g->set_desig = 0; }
+	/* C02 H4: the queue spinlock is released with MU_WAITING set whenever the queue is left non-empty */
+	if (rel_spin && g->h4_check && vp_reg.mu_word != NULL && ((nsync_mu *) vp_reg.mu_word)->waiters != NULL &&
+	    (old & MU_WAITING) != 0 && (new_ & MU_WAITING) == 0) viol |= V_H4;
 	/* C16: a pure observer may take and release the spinlock and nothing else */
 	if (g->observer && ((old ^ new_) & ~MU_SPINLOCK) != 0) viol |= V_OBSERVER;
 	g->last_new = new_;
@@ -181,6 +188,7 @@ static void mu_check (unsigned viol) {
 	VP_ASSERT (!(viol & V_ALLFALSE_W), "C06: a writer's release (nsync_mu_unlock) clears MU_ALL_FALSE, because its critical section may have made conditions true");
 	VP_ASSERT (!(viol & V_LONG_L1), "C14: a waiter woken LONG_WAIT_THRESHOLD times sets MU_LONG_WAIT when it goes back to sleep");
 	VP_ASSERT (!(viol & V_QUEUED), "C03: a queued waiter re-acquires only after observing its wake-up with an acquire load, or after dequeuing itself");
+	VP_ASSERT (!(viol & V_H4), "C02: MU_WAITING is not cleared while waiters remain queued (nobody sleeps on a mutex that looks uncontended)");
 	VP_ASSERT (!(viol & V_OBSERVER), "C16: an observer changes nothing but the spinlock bit");
 }
 
@@ -357,11 +365,9 @@ int vp_note_cas (int i, nsync_atomic_uint32_ *p, uint32_t o, uint32_t n, int ord
 #include "vp_amu.h"
 #endif
 struct vp_waker_ghost vp_wk;
-static int is_foreign_waiting (nsync_atomic_uint32_ *p) {
-	int i;
-	if (p == &vp_fw.nw.waiting) return 1;
-	for (i = 0; i != VP_WK_MAX; i++) { if (vp_wk.rec[i] != NULL && p == &vp_wk.rec[i]->waiting) return 1; }
-	return 0;
+#define VP_IS_REC(i) (vp_wk.rec[i] != NULL && p == &vp_wk.rec[i]->waiting)
+static int is_foreign_waiting (nsync_atomic_uint32_ *p) {   /* (no loop: VP_WK_MAX == 4) */
+	return p == &vp_fw.nw.waiting || VP_IS_REC (0) || VP_IS_REC (1) || VP_IS_REC (2) || VP_IS_REC (3);
 }
 static void foreign_waiting_store (nsync_atomic_uint32_ *p, uint32_t v, int order) {
 	if (v == 0) {
@@ -459,7 +465,7 @@ void vp_reg_clear (void) {
 	vp_cvg.spin = 0; vp_cvg.in_wait = 0; vp_cvg.enq_done = 0; vp_cvg.unlinked_by_other = 0; vp_cvg.self_dequeued = 0; vp_cvg.sections = 0;
 	vp_cvg.my_remove_count = NULL;
 #ifdef VP_RG_WAKER
-	{ int i; for (i = 0; i != VP_WK_MAX; i++) vp_wk.rec[i] = NULL; }
+	vp_wk.rec[0] = NULL; vp_wk.rec[1] = NULL; vp_wk.rec[2] = NULL; vp_wk.rec[3] = NULL;
 	vp_wk.cleared = 0; vp_wk.posted = 0; vp_wk.pending = 0; vp_wk.last_cleared = NULL; vp_wk.lock = NULL;
 #endif
 }
